@@ -106,6 +106,24 @@ def check(ctx: Ctx) -> None:
             ctx.violation('C14.b', fn.qualname, 'the running time is not advanced by num_samples * Ts (stores %s, normal form '
                           '%s): consecutive requests do not continue at sample k x Ts' % ([norm(s) for s in stores], got_s),
                           fn.path, fn.lineno, operand='advance')
+    # the module-level generator returns the advanced time: current_time + NSamples * Ts
+    gj = M.func(FG, 'generate_jakes_samples')
+    ctx.instance('C14.b', 'generate_jakes_samples:advance')
+    rets = [n for n in walk_no_nested(gj.node) if isinstance(n, ast.Return) and isinstance(n.value, ast.Tuple)]
+    okf, got_s = False, None
+    if len(rets) == 1:
+        try:
+            env = T.Env(M, gj)
+            env.vars.update(T.local_terms(M, gj))
+            got = T.from_ast(rets[0].value.elts[0], env)
+            got_s = got.pretty()
+            okf = got == T.parse_spec('current_time + NSamples * Ts')
+        except T.Unknown as e:
+            got_s = 'not a formula: %s' % e
+    ctx.obligation('C14.b', 'generate_jakes_samples:advance', okf, {'returned_time': got_s})
+    if not okf:
+        ctx.violation('C14.b', 'generate_jakes_samples', 'the returned next time is `%s`, not current_time + NSamples * Ts' % got_s,
+                      gj.path, gj.lineno, operand='advance')
     writers = set()
     for fn in list(cls.methods.values()) + list(cls.setters.values()) + list(cls.getters.values()):
         for n in ast.walk(fn.node):
